@@ -45,10 +45,18 @@ package templater
 //@   modifies github.com/go-task/task/v3/internal/templater.*
 // The variables handed to a nested call or dependency are always a NEW Vars object (never the one of the
 // task definition, which concurrent calls share and GetTask writes MATCH into).
+//@ ghost var builtVars *ast.Vars scratch
 //@ func ReplaceVarsWithExtra
 //@   modifies heap, om_has, om_val, om_len, om_key
 //@   preserves $RUNDATA
 //@   nilable vars result
 //@   ensures result != nil ==> fresh(result)                                                                   [C11,C18]
+// C02: the variables a call passes are resolved in the CALLER's scope, every one of them (static values, refs and
+// the command text of sh: variables alike): what is returned is the map built here from the templated entries
+//@   init builtVars := nil
+//@   site ast.NewVars#1 ghost builtVars := result
+//@   ensures vars != nil ==> result == builtVars                                                               [C02,C10]
 //@ func ReplaceVarsWithExtra$1
+//@   site ReplaceVarWithExtra#1 requires arg0 == v && arg1 == cache && arg2 == extra                           [C02,C10]
+//@   site (*Vars).Set#1 requires arg0 == newVars && arg1 == k                                                  [C02,C10]
 //@   modifies heap, om_has, om_val, om_len, om_key
